@@ -501,7 +501,7 @@ def check_canonical_value64(ctx, P, B, rule="canonical-value"):
         if hf is None:
             ctx.lost(rule, T + "::" + h, "helper not found")
             return
-        r = ssa.Eval(P, hf, inline=lambda n: False).run()
+        r = ssa.Eval(P, hf, inline=lambda n: False, auto=False).run()
         intern.Interner().canon_result(r)
         ret = r.ret
         if not isinstance(ret, ssa.Agg):
@@ -554,7 +554,7 @@ def check_canonical_value64(ctx, P, B, rule="canonical-value"):
         ctx.fail(rule, T, "the carry helpers of Fe::to_packed are not exact carry chains with the top carry folded back times 19 / dropped: %s" % "; ".join(bad), where=fn.where(), key="%s:%s:helpers" % (rule, T))
         return
     # ---- composition from to_packed's own MIR (the helper calls stay opaque here: their contracts were derived above)
-    r = ssa.Eval(P, fn, inline=lambda n: False).run()
+    r = ssa.Eval(P, fn, inline=lambda n: False, auto=False).run()
     stages = []   # (helper, source stage index or None for the input, per-digit constants)
     call_ids = {}
     okc = True
